@@ -10,6 +10,7 @@ External routines enter as hypotheses ("contracts"): svd/eigh (orthonormal outpu
 import NumqiProofs.MatrixSpaceLemmas
 import NumqiProofs.MatrixSpaceMinors
 import NumqiProofs.MatrixSpaceTables5
+import NumqiProofs.MatrixSpaceCombos
 import NumqiModel.Generated.Thresholds20
 import Mathlib.Data.List.Sort
 import Mathlib.Data.Real.Basic
@@ -49,6 +50,17 @@ theorem symIndex_length (d r : Nat) : (symIndex d r).length = Nat.multichoose d 
 theorem hierarchyIndices_length (N rank k : Nat) :
     (hierarchyIndices N rank k).length = Nat.multichoose N (rank - 1 + k) := by
   simp [hierarchyIndices, combosRep_length]
+
+/-- **sorted and complete**, symmetric side: the multi-indices of the linear system are exactly the non-decreasing tuples of
+generator labels below `N` -/
+theorem hierarchyIndices_mem_iff (N rank k : Nat) (x : List Nat) :
+    x ∈ hierarchyIndices N rank k ↔ x.length = rank - 1 + k ∧ x.Pairwise (· ≤ ·) ∧ ∀ i ∈ x, i < N :=
+  mem_combosRep_range N (rank - 1 + k) x
+
+/-- and the columns of `get_symmetric_basis_index(dim, r)[2]` are the non-decreasing `r`-tuples below `dim` -/
+theorem symIndex_mem_iff (d r : Nat) (x : List Nat) :
+    x ∈ symIndex d r ↔ x.length = r ∧ x.Pairwise (· ≤ ·) ∧ ∀ i ∈ x, i < d :=
+  mem_combosRep_range d r x
 
 /-! ## 2. structure classes: dimension counts and index shuffles, all sizes -/
 
@@ -295,11 +307,16 @@ theorem hierarchy_k1_relation_of_tables {q N : ℕ} (hT : TablesOK q) (hq : 0 < 
   rw [this]
   exact polMinor_perm (fun m' : Fin q => mats (t m').val) _ _ (Tuple.sort t)
 
-/-- the multi-indices occurring in the relation are sorted tuples of generator labels of length `q`
-(the elements of `combinations_with_replacement(range(N), q)`) -/
+/-- the multi-indices occurring in the relation are sorted tuples of generator labels of length `q` -/
 theorem sortedIndex_spec {q N : ℕ} (t : Fin q → Fin N) :
     (sortedIndex t).length = q ∧ (sortedIndex t).Pairwise (· ≤ ·) ∧ ∀ i ∈ sortedIndex t, i < N :=
   ⟨sortedIndex_length t, sortedIndex_sorted t, sortedIndex_lt t⟩
+
+/-- so every multi-index occurring in the relation labels a vector of the model's `k = 1` family -/
+theorem sortedIndex_mem_hierarchyIndices {q N : ℕ} (hq : 0 < q) (t : Fin q → Fin N) :
+    sortedIndex t ∈ hierarchyIndices N q 1 := by
+  rw [hierarchyIndices_mem_iff]
+  exact ⟨by rw [sortedIndex_length]; omega, sortedIndex_sorted t, sortedIndex_lt t⟩
 
 /-- **`hierarchy_sound`, level `k = 1`, minors up to `5 × 5`** (everything reachable with matrices up to 5×5): if a
 combination `M = Σ_i c_i S_i` has rank `≤ r` — it factors as `X·Y` through `r` columns — and `q = r+1 ≤ 5`, then on every
